@@ -3,7 +3,7 @@
    N, Z, Q stay extracted inductives.  No Extract Constant. *)
 Require Extraction.
 Require Import ExtrOcamlBasic.
-From KV Require Import Model.Triu Model.Greedy Model.Kaisa Model.Trace Model.Sched Model.Register Model.Neox Model.Bucket Model.Coll Model.Mat Model.Precond Model.Clip Model.Conv Model.Factor Model.Kfac Model.Placement Model.Frame.
+From KV Require Import Model.Triu Model.Greedy Model.Kaisa Model.Trace Model.Sched Model.Register Model.Neox Model.Bucket Model.Coll Model.Mat Model.Precond Model.Clip Model.Conv Model.Factor Model.Kfac Model.Placement Model.Frame Model.Shard.
 Extraction "model.ml" triu_idx fill_index_matrix sym_comm_outcome
   greedy greedy_ok_b greedy_prop_b kaisa_view
   Trace.run Sched.srun Sched.ctor_ok Sched.exp_decay_q
@@ -18,4 +18,5 @@ Extraction "model.ml" triu_idx fill_index_matrix sym_comm_outcome
   Factor.lin_a Factor.lin_g Factor.conv_a Factor.conv_g Factor.factor_update Factor.unscaled Factor.unscaled4 Mat.mid
   Kfac.krun Kfac.krun_trace Kfac.init
   Placement.placement_view
-  Frame.step_env Frame.touched.
+  Frame.step_env Frame.touched
+  Shard.neox_precondition.
